@@ -54,6 +54,28 @@ def c12_1(R):
                 else:
                     R.fail([fn, "send(UtpMessage)", detail], "the datagram is routed with a key other than (source address, header connection id), or a different message is delivered", where=t.where(), instance="route-by-key")
     R.floor("UtpMessage send sites", n, 1)
+    # a stream whose task is gone (send failed) is dropped from the table with the same key it was looked up under
+    nrem = 0
+    for b in fn_bodies(F, D + "::on_recv"):
+        for t in b.calls():
+            if call_on_field(b, t, ("HashMap::remove",), STREAMS):
+                nrem += 1
+                kt = key_tuple(b, t.args[1])
+                okk = False
+                if kt:
+                    a, bt, k = kt
+                    okk = is_fn_param(b, a, 2) and is_fn_param(b, bt, 3) and bt.fields[-2:] == ["UtpMessage.header", "UtpHeader.connection_id"] and k == 0
+                else:
+                    # the same `key` local that was used for the lookup
+                    gets = [x for x in b.calls() if call_on_field(b, x, ("HashMap::get",), STREAMS)]
+                    okk = bool(gets) and trace(b, t.args[1]).key() == trace(b, gets[0].args[1]).key()
+                err = any(d.endswith("=Err") or "is_err=true" in d for c, truth, d, *_ in controlling(b, t.bb))
+                if okk and err:
+                    R.ok("dead-stream=>entry-removed", D + "::on_recv", "streams.remove(&key) when the stream's channel is closed")
+                else:
+                    R.fail([D + "::on_recv", "stale-entry-removal", "same-key=%s on-send-error=%s" % (okk, err)], "on_recv removes a table entry other than the one whose delivery failed (or not on failure)", where=t.where(), instance="dead-stream=>entry-removed")
+    if nrem == 0:
+        R.fail([D + "::on_recv", "no-stale-entry-removal"], "a stream whose task has ended is never dropped from the table by on_recv: every later datagram for that key is swallowed and the slot stays occupied if the guard's Shutdown was lost", instance="dead-stream=>entry-removed")
     # run_once: on_recv(addr, message) with addr from recv_from and message from deserialize(&read_buf[..len])
     okc = False
     for b in fn_bodies(F, D + "::run_once"):
